@@ -180,6 +180,7 @@ func (c *conn) writeloop() {
 				_ = c.terminate(err)
 				req.err <- err
 				close(req.err)
+				verifYield("cli.write.reported", c)
 				return
 			}
 			close(req.err)
